@@ -68,6 +68,10 @@ fn experiments() -> Vec<Exp> {
             v.push(Exp::Flip { rate: None, container, len });
         }
         v.push(Exp::Flip { rate: Some(0.001), container, len: 70_000 });
+        // tiny rates: 1/length for a genome of 10^7 genes, and an explicit rate far below f32::EPSILON (a
+        // "treat as zero" shortcut must not swallow them); enough gene decisions for ~40 expected flips
+        v.push(Exp::Flip { rate: None, container, len: 10_000_000 });
+        v.push(Exp::Flip { rate: Some(5e-8), container, len: 4_000_000 });
         // lengths of arbitrary magnitude (size-dependent paths: word packing, chunking, fast paths)
         for len in [100usize, 257, 1000, 3000] {
             v.push(Exp::Flip { rate: Some(0.3), container, len });
@@ -155,7 +159,14 @@ fn run_experiment(exp: &Exp, trials: u64, seed: u64) -> Option<Vec<Cell_>> {
         Exp::Flip { rate, container, len } => {
             let len = *len;
             // keep the number of gene decisions bounded for very long genomes
-            let trials = if len > 1000 { (trials * 64 / len as u64).max(40) } else { trials };
+            let trials = if len >= 4_000_000 {
+                // ~40 expected flips in total, whatever the tier
+                if rate.is_some() { 200 } else { 40 }
+            } else if len > 1000 {
+                (trials * 64 / len as u64).max(40)
+            } else {
+                trials
+            };
             let p = match rate {
                 Some(r) => f64::from(*r),
                 None => 1.0 / len as f64,
